@@ -249,6 +249,73 @@ class _InsertNoop(_ast.NodeTransformer):
     visit_AsyncFunctionDef = visit_FunctionDef
 
 
+class _NegateIf(_ast.NodeTransformer):
+    """`if c: A else: B`  ->  `if not c: B else: A`  (only plain if/else, not elif chains)."""
+
+    def visit_If(self, node):
+        self.generic_visit(node)
+        if node.orelse and not (len(node.orelse) == 1 and isinstance(node.orelse[0], _ast.If)):
+            test = node.test
+            if isinstance(test, _ast.UnaryOp) and isinstance(test.op, _ast.Not):
+                new_test = test.operand
+            else:
+                new_test = _ast.UnaryOp(op=_ast.Not(), operand=test)
+            return _ast.copy_location(_ast.If(test=new_test, body=node.orelse, orelse=node.body), node)
+        return node
+
+
+class _ExpandAugAssign(_ast.NodeTransformer):
+    """`x += e` -> `x = x + e` for plain names and self attributes (single evaluation of the target either way)."""
+
+    def visit_AugAssign(self, node):
+        t = node.target
+        simple = isinstance(t, _ast.Name) or (isinstance(t, _ast.Attribute) and isinstance(t.value, _ast.Name))
+        if not simple:
+            return node
+        import copy as _copy
+        load = _copy.deepcopy(t)
+        load.ctx = _ast.Load()
+        return _ast.copy_location(_ast.Assign(targets=[t], value=_ast.BinOp(left=load, op=node.op, right=node.value)), node)
+
+
+class _ExtractReturn(_ast.NodeTransformer):
+    """`return <call>` -> `_ret = <call>; return _ret` (not inside lambdas; generators keep their returns)."""
+
+    def _fix(self, body):
+        out = []
+        for st in body:
+            if isinstance(st, _ast.Return) and isinstance(st.value, _ast.Call):
+                tmp = _ast.Name(id="_ret", ctx=_ast.Store())
+                out.append(_ast.copy_location(_ast.Assign(targets=[tmp], value=st.value), st))
+                out.append(_ast.copy_location(_ast.Return(value=_ast.Name(id="_ret", ctx=_ast.Load())), st))
+            else:
+                out.append(st)
+        return out
+
+    def generic_visit(self, node):
+        super().generic_visit(node)
+        for field in ("body", "orelse", "finalbody"):
+            seq = getattr(node, field, None)
+            if isinstance(seq, list) and seq and isinstance(seq[0], _ast.stmt):
+                setattr(node, field, self._fix(seq))
+        return node
+
+
+class _FlipCompare(_ast.NodeTransformer):
+    """`a < b` -> `b > a`, `a == b` -> `b == a` for single comparisons of side-effect-free operands."""
+    FLIP = {_ast.Lt: _ast.Gt, _ast.Gt: _ast.Lt, _ast.LtE: _ast.GtE, _ast.GtE: _ast.LtE, _ast.Eq: _ast.Eq, _ast.NotEq: _ast.NotEq}
+
+    def visit_Compare(self, node):
+        self.generic_visit(node)
+        if len(node.ops) == 1 and type(node.ops[0]) in self.FLIP:
+            pure = all(not isinstance(x, (_ast.Call, _ast.Yield, _ast.YieldFrom, _ast.Await, _ast.NamedExpr))
+                       for side in (node.left, node.comparators[0]) for x in _ast.walk(side))
+            if pure:
+                return _ast.copy_location(_ast.Compare(left=node.comparators[0], ops=[self.FLIP[type(node.ops[0])]()],
+                                                       comparators=[node.left]), node)
+        return node
+
+
 def _transform_tree(root, how):
     overlay = {}
     for dirpath, dirs, files in os.walk(os.path.join(root, "lena")):
@@ -270,12 +337,23 @@ def _transform_tree(root, how):
                 tree = _RenameLocals("_rn").visit(tree)
             elif how == "noop":
                 tree = _InsertNoop().visit(tree)
+            elif how == "negate-if":
+                tree = _NegateIf().visit(tree)
+            elif how == "augassign":
+                tree = _ExpandAugAssign().visit(tree)
+            elif how == "extract-return":
+                tree = _ExtractReturn().visit(tree)
+            elif how == "flip-compare":
+                tree = _FlipCompare().visit(tree)
             _ast.fix_missing_locations(tree)
             overlay[rel] = _ast.unparse(tree) + "\n"
     return overlay
 
 
 GENERIC_TWINS = (("generic/reformat-all", "reformat"), ("generic/rename-locals-all", "rename"), ("generic/noop-stmt-all", "noop"))
+# deeper behaviour-preserving rewrites: a rule may answer UNKNOWN on them (an idiom it does not know), never VIOLATION
+DEEP_TWINS = (("generic/negate-if-all", "negate-if"), ("generic/augassign-expanded", "augassign"),
+              ("generic/extract-return-all", "extract-return"), ("generic/flip-compare-all", "flip-compare"))
 
 
 def generic_twin_tasks(prop, root, base_keys, base_unknown):
